@@ -98,7 +98,7 @@ def s_rollup(ctx, shape, limited):
 
     orig = C._Component._solv_get_warns
 
-    def bounded(self, vi, vo, ii, io, ta, phase, phase_conf):
+    def bounded(self, vi, vo, ii, io, ta, phase, phase_conf, *xa, **xk):
         # stated bound: quantities whose limit was not supplied stay inside the documented default range
         # (the default comparisons themselves are decided per kind by u_defaults)
         if ctx.symbolic:
@@ -107,7 +107,7 @@ def s_rollup(ctx, shape, limited):
             for k in self._get_limits():
                 if k not in limited.get(self._params["name"], ()):
                     ctx.assume(Not(exceeded(k, q[k], DEFAULTS[k])))
-        return orig(self, vi, vo, ii, io, ta, phase, phase_conf)
+        return orig(self, vi, vo, ii, io, ta, phase, phase_conf, *xa, **xk)
 
     C._Component._solv_get_warns = bounded
     try:
